@@ -125,3 +125,35 @@ class quiet:
     def __exit__(self, *a):
         sys.stdout, sys.stderr = self._o, self._e
         return False
+
+
+def in_fork(fn, *args):
+    """run fn(*args) in a forked child and return its (picklable) result: the child starts from this process's
+    state - for C17 a process that has imported CMinx but never documented anything - so a history is exactly what
+    the case says and a violation reproduces in a fresh process"""
+    import pickle
+    r, w = os.pipe()
+    pid = os.fork()
+    if pid == 0:
+        code = 0
+        try:
+            os.close(r)
+            try:
+                data = pickle.dumps(("ok", fn(*args)))
+            except BaseException as e:  # noqa
+                import traceback
+                data = pickle.dumps(("err", traceback.format_exc()))
+            with os.fdopen(w, "wb") as f:
+                f.write(data)
+        finally:
+            os._exit(code)
+    os.close(w)
+    with os.fdopen(r, "rb") as f:
+        data = f.read()
+    os.waitpid(pid, 0)
+    if not data:
+        raise HarnessFault("forked child died without a result")
+    kind, val = pickle.loads(data)
+    if kind == "err":
+        raise HarnessFault("exception in forked child:\n" + val)
+    return val
